@@ -204,12 +204,15 @@ def run_kani(crate, h, playback=False, mem_gb=16, slot=0):
     if m:
         res['cover_sat'], res['cover_total'] = int(m.group(1)), int(m.group(2))
     if playback:
-        vals = []
-        block = re.search(r'let concrete_vals: Vec<Vec<u8>> = vec!\[(.*?)\];', out, re.S)
-        if block:
+        all_vals = []
+        for block in re.finditer(r'let concrete_vals: Vec<Vec<u8>> = vec!\[(.*?)\];', out, re.S):
+            vals = []
             for vm in re.finditer(r'vec!\[([0-9, ]*)\]', block.group(1)):
                 vals.append([int(x) for x in vm.group(1).replace(' ', '').split(',') if x])
-        res['vals'] = vals
+            if vals not in all_vals:
+                all_vals.append(vals)
+        res['all_vals'] = all_vals
+        res['vals'] = all_vals[0] if all_vals else []
     return res
 
 
@@ -268,11 +271,15 @@ def run_all(crate, tier, jobs=None):
                 r2 = run_kani(crate, h, playback=True, slot=s)
                 r['vals'] = r2.get('vals', [])
                 r['playback_status'] = r2['status']
-                if r['vals']:
+                for vals in r2.get('all_vals', []):
                     try:
-                        r['replay'] = replay_native(crate, h.name, r['vals'])
+                        rep = replay_native(crate, h.name, vals)
                     except Exception as e:  # noqa
-                        r['replay'] = {'error': str(e)[-500:]}
+                        rep = {'error': str(e)[-500:]}
+                    r['replay'] = rep
+                    r['vals'] = vals
+                    if any('PANICKED' in str(v) for v in rep.values()):
+                        break
             return h, r
         finally:
             q.put(s)
